@@ -7,13 +7,26 @@ import (
 	"pgregory.net/rapid"
 )
 
-// Native coverage-guided fuzzing (thorough tier of C14 and C05 only): the
+// Native coverage-guided fuzzing (thorough tier only): the
 // fuzzer mutates the bit stream that rapid's generators consume, so every
 // input is decoded into a structured history IR and judged by the same
 // oracle as the rapid search. A crasher is written as an IR replay file.
 func fuzzProp(f *testing.F, id string) {
 	p := Props[id]
 	st := NewStats(id)
+	// starting corpus: pseudo-random bit streams of several lengths (an
+	// all-zero stream decodes to the smallest history only)
+	x := uint64(0x9E3779B97F4A7C15)
+	for _, n := range []int{256, 1024, 2048, 4096, 4096, 8192, 8192, 16384} {
+		b := make([]byte, n)
+		for i := range b {
+			x ^= x << 13
+			x ^= x >> 7
+			x ^= x << 17
+			b[i] = byte(x >> 24)
+		}
+		f.Add(b)
+	}
 	f.Fuzz(rapid.MakeFuzz(func(t *rapid.T) {
 		c := p.Gen(t, false)
 		c.Prop = id
@@ -27,5 +40,23 @@ func fuzzProp(f *testing.F, id string) {
 	}))
 }
 
-func FuzzC14(f *testing.F) { fuzzProp(f, "C14") }
+func FuzzC01(f *testing.F) { fuzzProp(f, "C01") }
+func FuzzC02(f *testing.F) { fuzzProp(f, "C02") }
+func FuzzC03(f *testing.F) { fuzzProp(f, "C03") }
+func FuzzC04(f *testing.F) { fuzzProp(f, "C04") }
 func FuzzC05(f *testing.F) { fuzzProp(f, "C05") }
+func FuzzC06(f *testing.F) { fuzzProp(f, "C06") }
+func FuzzC07(f *testing.F) { fuzzProp(f, "C07") }
+func FuzzC08(f *testing.F) { fuzzProp(f, "C08") }
+func FuzzC09(f *testing.F) { fuzzProp(f, "C09") }
+func FuzzC10(f *testing.F) { fuzzProp(f, "C10") }
+func FuzzC11(f *testing.F) { fuzzProp(f, "C11") }
+func FuzzC12(f *testing.F) { fuzzProp(f, "C12") }
+func FuzzC13(f *testing.F) { fuzzProp(f, "C13") }
+func FuzzC14(f *testing.F) { fuzzProp(f, "C14") }
+func FuzzC15(f *testing.F) { fuzzProp(f, "C15") }
+func FuzzC16(f *testing.F) { fuzzProp(f, "C16") }
+func FuzzC17(f *testing.F) { fuzzProp(f, "C17") }
+func FuzzC18(f *testing.F) { fuzzProp(f, "C18") }
+func FuzzC19(f *testing.F) { fuzzProp(f, "C19") }
+func FuzzC20(f *testing.F) { fuzzProp(f, "C20") }
